@@ -14,12 +14,15 @@ def run(rep, tier, seed):
     rep.cov["gen_model_states"] = t.distinct; rep.cov["gen_model_transitions"] = t.generated
     from areas.c05g import corpus
     progs = corpus(tier)
+    zoo = zoo_corpus(rep)
+    rep.cov["zoo_programs"] = len(zoo)
+    progs = progs + zoo
     K = 3
     reqs = [{"id": i, "mode": "stepwise", "text": p, "probes": False, "steps": K} for i, (_, p) in enumerate(progs)]
     outs = execpool.run_requests(reqs, nworkers=16, timeout=300)
     os.makedirs(os.path.join(tlc.OUT, "traces"), exist_ok=True)
     path = os.path.join(tlc.OUT, "traces", f"c19g_{tier}.ndjson")
-    index = []; nev = 0; nprog = 0; nsteps = 0; noassign = 0
+    index = []; nev = 0; nprog = 0; nsteps = 0; noassign = 0; zoo_ok = 0
     SENT = {"$": "-"}
     with open(path, "w") as fh:
         for i, ((origin, text), (resp, oc)) in enumerate(zip(progs, outs)):
@@ -28,6 +31,7 @@ def run(rep, tier, seed):
             evs = resp["events"]
             if not any(e["kind"] in ("Step", "StepN", "Rerun") for e in evs): continue
             nprog += 1
+            if origin.startswith("zoo:") and all(e["ok"] for e in evs if e["origin"] == "program"): zoo_ok += 1
             if not any(e["kind"] in ("Assign", "OpAssign") for e in evs): noassign += 1
             fh.write(json.dumps({"sess": i, "kind": "Reset", "n": 0, "ok": True, "store": SENT}) + "\n"); index.append((i, -1)); nev += 1
             for j, e in enumerate(evs):
@@ -50,7 +54,7 @@ def run(rep, tier, seed):
         pre, post = prev["store"], ev["store"]
         changed = sorted(n for n in set(pre) | set(post) if pre.get(n) != post.get(n))
         rules = sorted(m["rules"])
-        sig = "C19/gen/" + "+".join(rules) + "/" + origin.split(":")[0] + ":" + hashlib.sha1(text.encode()).hexdigest()[:8]
+        sig = "C19/gen/" + "+".join(rules) + "/" + (origin if origin.startswith("zoo:") else origin.split(":")[0] + ":" + hashlib.sha1(text.encode()).hexdigest()[:8])
         rep.fail(sig, f"{origin} {text[:160]!r}: {ev['kind']} {ev['n']} breaks {rules}; names differing from the previous event: {changed}",
                  {"program": text, "event": ev["kind"], "n": ev["n"], "rules": rules, "changed": changed,
                   "pre": {n: pre.get(n, '')[17:] for n in changed}, "post": {n: post.get(n, '')[17:] for n in changed}})
@@ -73,5 +77,91 @@ def run(rep, tier, seed):
     if not nc:
         raise tlc.TlcError("negative control failed: a corrupted re-evaluation trace was accepted by Trace_C19g")
     rep.cov.update({"corpus_programs": nprog, "corpus_programs_without_assignment": noassign, "corpus_events_validated": nev,
-                    "corpus_step_events": nsteps, "corpus_rejected_events": len(mism), "corpus_negative_controls_passed": nc})
+                    "corpus_step_events": nsteps, "corpus_rejected_events": len(mism), "corpus_negative_controls_passed": nc, "zoo_programs_fully_evaluated": zoo_ok})
     return nprog
+
+
+# ---------------------------------------------------------------------------------------------- kernel zoo (MC_C19z)
+DIMS = {"scalar": (1, 1), "row3": (1, 3), "col3": (3, 1), "mat22": (2, 2), "mat23": (2, 3), "mat32": (3, 2), "mat44": (4, 4)}
+
+def zlit(kind, n):
+    if kind == "f64": return f"{n}.5"
+    if kind == "bool": return "true" if n % 2 else "false"
+    if kind == "string": return f'"s{n}"'
+    if kind == "r64": return f"{n}/7"
+    return f"{n}<{kind}>"
+
+def zval(kind, shape, base):
+    r, c = DIMS[shape]
+    if shape == "scalar": return zlit(kind, base)
+    return "[" + "; ".join(" ".join(zlit(kind, base + i + r * j) for j in range(c)) for i in range(r)) + "]"
+
+def zoo_program(fam, shape, kind):
+    """Mech text of the program named by (family, shape, kind); None when the combination makes no sense"""
+    r, c = DIMS[shape]
+    A = f"a := {zval(kind, shape, 2)}"; B = f"b := {zval(kind, shape, 3)}"
+    S = f"s := {zlit(kind, 2)}"
+    binop = {"add": "+", "sub": "-", "mul": "*", "div": "/", "mod": "%", "pow": "^", "lt": "<", "ge": ">=", "eq": "==", "ne": "!=",
+             "and": "&&", "or": "||", "xor": "⊕"}
+    if fam in binop: return [A, B, f"y := a {binop[fam]} b"]
+    if fam == "neg": return [A, "y := -a"]
+    if fam == "not": return [A, "y := !a"]
+    if fam == "transpose": return [A, "y := a'"]
+    if fam == "matmul": return [A, f"b := {zval(kind, {'row3': 'col3', 'col3': 'row3', 'mat23': 'mat32', 'mat32': 'mat23'}.get(shape, shape), 3)}", "y := a ** b"]
+    if fam == "sumrow": return [A, "y := stats/sum/row(a)"]
+    if fam == "sumcol": return [A, "y := stats/sum/column(a)"]
+    if fam.startswith("horz"): return [A, B, "y := [" + " ".join(["a", "b"][i % 2] for i in range(int(fam[4]))) + "]"]
+    if fam.startswith("vert"): return [A, B, "y := [" + "; ".join(["a", "b"][i % 2] for i in range(int(fam[4]))) + "]"]
+    if fam == "block22": return [A, B, "y := [a b; b a]"]
+    if fam in ("rng", "rngi", "rngs", "rngsi"):
+        if shape != "scalar": return None
+        lo, st, hi = zlit(kind, 1), zlit(kind, 2), zlit(kind, 8)
+        return [f"lo := {lo}", f"st := {st}", f"hi := {hi}", "y := " + {"rng": "lo..hi", "rngi": "lo..=hi", "rngs": "lo..st..hi", "rngsi": "lo..st..=hi"}[fam]]
+    if fam.startswith("idx_"):
+        if shape == "scalar": return None
+        f = fam[4:]
+        one = {"s": "2", "v": "[1 2]", "r": "1..=2", "a": ":", "m": "[" + " ".join("true" if i % 2 == 0 else "false" for i in range(r * c)) + "]"}
+        rowi = {"s": "1", "v": f"[1 {r}]" if r > 1 else "[1 1]", "a": ":", "m": "[" + " ".join("true" if i % 2 == 0 else "false" for i in range(r)) + "]"}
+        coli = {"s": "1", "v": f"[{c} 1]" if c > 1 else "[1 1]", "a": ":", "m": "[" + " ".join("true" if i % 2 == 0 else "false" for i in range(c)) + "]"}
+        if len(f) == 1: return [A, f"y := a[{one[f]}]"]
+        return [A, f"y := a[{rowi[f[0]]},{coli[f[1]]}]"]
+    if fam == "conv_up": return [A, f"y<{'[f64]' if shape != 'scalar' else 'f64'}> := a"]
+    if fam == "conv_down": return [A, f"y<{'[u8]' if shape != 'scalar' else 'u8'}> := a"]
+    if fam == "reshape": return None if shape == "scalar" else [A, f"y<[{kind}]:{c},{r}> := a"]
+    if fam == "toset": return None if shape == "scalar" else [A, "y<{" + kind + "}> := a"]
+    if fam in ("union", "inter", "diff", "symdiff", "subset", "superset", "member", "setcomp"):
+        if shape != "row3": return None
+        sa = "{" + ", ".join(zlit(kind, n) for n in (2, 3, 4)) + "}"; sb = "{" + ", ".join(zlit(kind, n) for n in (3, 4, 5)) + "}"
+        op = {"union": "a ∪ b", "inter": "a ∩ b", "diff": "a ∖ b", "symdiff": "a Δ b", "subset": "a ⊆ b", "superset": "a ⊇ b",
+              "member": f"{zlit(kind, 3)} ∈ a", "setcomp": "{x | x <- a}"}[fam]
+        return [f"a := {sa}", f"b := {sb}", f"y := {op}"]
+    if fam == "matcomp": return None if shape != "row3" else [A, "y := [x | x <- a]"]
+    if fam.startswith("join_") or fam.startswith("tbl"):
+        if shape != "mat22": return None
+        ta = f"a := | k<u8> p<{kind}> | 1 {zlit(kind, 2)} | 2 {zlit(kind, 3)} | 2 {zlit(kind, 4)} |"
+        tb = f"b := | k<u8> q<{kind}> | 2 {zlit(kind, 5)} | 3 {zlit(kind, 6)} |"
+        op = {"join_inner": "a ⋈ b", "join_left": "a ⟕ b", "join_right": "a ⟖ b", "join_full": "a ⟗ b", "join_semi": "a ⋉ b", "join_anti": "a ▷ b",
+              "tblsel_i": "a[2]", "tblsel_v": "a[[1 3]]", "tblsel_m": "a[[true false true]]", "tblcol": "a.p"}[fam]
+        return [ta, tb, f"y := {op}"]
+    if fam == "strcat": return None if (kind != "string" or shape != "scalar") else [A, B, "y := a + b"]
+    if fam == "recfield": return None if shape != "scalar" else [f"a := {{p: {zlit(kind, 2)}, q: {zlit(kind, 3)}}}", "y := a.q"]
+    if fam == "tupaccess": return None if shape != "scalar" else [f"a := ({zlit(kind, 2)}, {zlit(kind, 3)})", "y := a.2"]
+    if fam == "mapaccess": return None if shape != "scalar" else [f'a := {{"k1": {zlit(kind, 2)}, "k2": {zlit(kind, 3)}}}', 'y := a{"k2"}']
+    if fam == "sin": return [A, "y := math/sin(a)"]
+    if fam in ("max", "min"): return [A, B, f"y := compare/{fam}(a, b)"]
+    if fam == "fncall": return None if kind != "u8" else ["inc(x<u8>) => <u8>\n  | * => x + 1<u8>.", A, "y := inc(a)"]
+    if fam == "matchexpr": return None if (shape != "scalar" or kind != "u8") else [A, "y := a?\n  | 2<u8> => 7<u8>\n  | * => 9<u8>."]
+    if fam == "scalar_bcast_l": return None if shape == "scalar" else [A, S, "y := s + a"]
+    if fam == "scalar_bcast_r": return None if shape == "scalar" else [A, S, "y := a - s"]
+    if fam == "row_bcast": return None if shape not in ("mat22", "mat23", "mat32", "mat44") else [A, f"b := {zval(kind, 'row3', 3) if c == 3 else '[' + ' '.join(zlit(kind, 3 + i) for i in range(c)) + ']'}", "y := a + b"]
+    if fam == "col_bcast": return None if shape not in ("mat22", "mat23", "mat32", "mat44") else [A, "b := [" + "; ".join(zlit(kind, 3 + i) for i in range(r)) + "]", "y := a + b"]
+    return None
+
+def zoo_corpus(rep):
+    t = tlc.run("MC_C19z", "MC_C19z.cfg", workers=4, timeout=600)
+    if not t.ok: raise tlc.TlcError("MC_C19z did not complete")
+    progs = []
+    for cs in sorted(t.cases, key=lambda c: (c["fam"], c["shape"], c["kind"])):
+        st = zoo_program(cs["fam"], cs["shape"], cs["kind"])
+        if st: progs.append((f"zoo:{cs['fam']}/{cs['shape']}/{cs['kind']}", "\n".join(st)))
+    return progs
